@@ -1,0 +1,34 @@
+//! Verification hooks, compiled only with the `verif` feature: a per-thread counter of parser
+//! primitive calls with an optional budget, so that a parser that stops making progress is
+//! detected deterministically (a panic with a marker message) instead of hanging.
+use std::cell::Cell;
+
+pub const BUDGET_MARKER: &str = "verif: parser step budget exceeded";
+
+thread_local! {
+    static STEPS: Cell<u64> = const { Cell::new(0) };
+    static BUDGET: Cell<u64> = const { Cell::new(u64::MAX) };
+}
+
+/// Reset the counter and set the budget for the parses that follow on this thread.
+pub fn reset(budget: u64) {
+    STEPS.with(|s| s.set(0));
+    BUDGET.with(|b| b.set(budget));
+}
+
+pub fn steps() -> u64 {
+    STEPS.with(|s| s.get())
+}
+
+#[inline]
+pub fn bump() {
+    let v = STEPS.with(|s| {
+        let v = s.get() + 1;
+        s.set(v);
+        v
+    });
+    if v > BUDGET.with(|b| b.get()) {
+        BUDGET.with(|b| b.set(u64::MAX));
+        panic!("{}", BUDGET_MARKER);
+    }
+}
